@@ -328,7 +328,7 @@ func paramsFromHeaders(endpoint *expr.HTTPEndpointExpr) []*Parameter {
 
 func paramFor(at *expr.AttributeExpr, name, in string, required bool) *Parameter {
 	alias := at
-	if expr.IsAlias(at.Type) {
+	for expr.IsAlias(at.Type) {
 		at = at.Type.(expr.UserType).Attribute()
 	}
 	p := &Parameter{
